@@ -620,8 +620,7 @@ Obs observe(Pipeline& p, const Builder& b) {
     for (size_t k = 0; k < b.calls.a.size() && k < 4; ++k) o.callseq += (k ? "; " : "") + b.calls.a[k].s;
     if (b.calls.a.size() > 4) o.callseq += "; ... (" + std::to_string(b.calls.a.size()) + " calls, see model.calls)";
     // (a) IndexHamiltonian monomials
-    p.Storage.reset(new Pomerol::IndexHamiltonian(&p.L, *p.IC));
-    p.Storage->prepare();
+    p.rebuild_storage();
     Terms mono;
     for (Pomerol::Operator::const_iterator it = p.Storage->begin(); it != p.Storage->end(); ++it) {
         RefTerm t; t.val = to_cd(it->second); ++o.nmono;
